@@ -1188,4 +1188,45 @@ func queuedWritesRun(r *vh.Runner, c *vh.Case, i int) {
 			}
 		}
 	}
+	// second phase: the server sends without pause while the client roams
+	// several times, changing IP and port each time (sends are in flight during
+	// the address updates; every datagram must go to an address the client has
+	// really used, and the race build watches the update)
+	used := map[string]bool{s.caddr.String(): true, na.String(): true}
+	var umu sync.Mutex
+	stop := make(chan struct{})
+	var hot sync.WaitGroup
+	hot.Add(1)
+	mark = w.Net.LogLen()
+	go func() {
+		defer hot.Done()
+		msg := build(r.Seed, msgID{0, 9, 9, 950000}, hdrLen+16)
+		for k := 0; k < 4000; k++ {
+			select {
+			case <-stop:
+				return
+			default:
+			}
+			s.h.WriteMsg(msg)
+		}
+	}()
+	for k := 0; k < 12; k++ {
+		a := simnet.Addr(53000+rng.Intn(4000), 3000+rng.Intn(50000))
+		umu.Lock()
+		used[a.String()] = true
+		umu.Unlock()
+		s.ep.SetSource(a)
+		s.cl.WriteMsg(build(r.Seed, msgID{0, 8, 8, uint32(10 + k)}, hdrLen+8))
+		time.Sleep(time.Duration(200+rng.Intn(800)) * time.Microsecond)
+	}
+	close(stop)
+	hot.Wait()
+	time.Sleep(10 * time.Millisecond)
+	r.Count("roams_under_continuous_sending", 12)
+	for _, ev := range w.Net.LogSince(mark) {
+		if ev.Kind == "tx" && ev.Src == w.SrvAddr.String() && !used[ev.Dst] {
+			c.Violate("C15:traffic-sent-to-an-address-the-peer-never-used:server-follows-client", map[string]any{"sent_to": ev.Dst})
+			return
+		}
+	}
 }
